@@ -6,6 +6,9 @@ import PPLV.Checked.ProofsExt3
 import PPLV.Checked.ProofsConv
 import PPLV.Checked.ModelAsWritten
 import PPLV.Checked.ProofsFloatMpz
+import PPLV.Checked.ProofsSqrt
+import PPLV.Checked.ProofsGcd
+import PPLV.Checked.ProofsConvMp
 /-!
 # C11 — checked arithmetic reports true rounding relations; bounded builds never lie
 
@@ -34,8 +37,10 @@ full-strength.  What was wrong is kept as historical witnesses `…_before_fix_f
 as-written variants of `ModelAsWritten.lean` (the driver compares the library with those variants
 when the harness measures that a repair is absent, so a regression is reported through the violated
 clause and its witness).  Still open: `lcm` returns the result code of an intermediate `abs` without
-storing anything (KF-C11-5, `lcm_model_fails`; only observable with a policy the library never
-instantiates).  Not covered by theorems (correspondence only): `sqrt`, `gcd`, `lcm`.
+storing anything (KF-C11-5, `lcm_spec_fails`; only observable with a policy the library never
+instantiates); `lcm_spec_partial` covers every call in which `|x|` and `|y|` are values of the type.
+`sqrt_holds` (over `ℝ`: the exact result is irrational), `gcd_spec` are full-strength.  Conversions
+into `mpz_class` / `mpq_class`: `assign_mpz_mpq_holds`, `assign_mpz_float_holds`, `assign_mpz_int_exact`.
 -/
 namespace C11
 open PPLV.Checked PPLV.Checked.Result
@@ -294,6 +299,121 @@ theorem umod2exp_holds {t : IntTy} {π : Policy} (c : Cfg t π) (dir : Dir) (a :
 example : IntOp.run .i8 .extended .umod2exp .down { x := -1, e := 7 } = (126, V_GT_SUP) := by decide
 example : IntOp.run .i8 .checkOverflowOnly .umod2exp .down { x := -1, e := 7 } = (127, V_EQ) := by decide
 
+
+/-! ## square root, gcd, lcm -/
+
+/-- **`sqrt_assign_r`** (`isqrt_rem` + `sqrt_unsigned_int` / `sqrt_signed_int` + `sqrt_ext`): for every even
+width (the bitwise algorithm steps through the powers of four), signedness, policy, direction and operand
+within the contract — the relation between `√x` (a real number) and the stored integer is true, the
+direction is honoured (the stored value is `⌊√x⌋`, or `⌊√x⌋ + 1` when rounding up an inexact root), no
+intermediate value leaves the type, a negative operand yields NaN / `V_SQRT_NEG`. -/
+theorem sqrt_holds {t : IntTy} {π : Policy} (c : Cfg t π) (hev : 2 ∣ t.bits) (dir : Dir) (a : Operands)
+    (hpre : IntOp.pre t π .sqrt a = true) :
+    OKR t π dir (IntOp.run t π .sqrt dir a) (IntOp.exact t π .sqrt a).toR := by
+  simp only [IntOp.pre, Bool.and_eq_true, decide_eq_true_eq, Bool.or_eq_true, Bool.not_eq_true'] at hpre
+  obtain ⟨⟨⟨x1, x2⟩, z1, z2⟩, hp⟩ := hpre
+  simp only [IntOp.run, IntOp.exact]
+  rw [exactSqrt_toR]
+  refine sqrtExt_okr c.wf hev dir ⟨z1, z2⟩ ⟨x1, x2⟩ ?_
+  rcases hp with h | h
+  · exact Or.inl h
+  · refine Or.inr fun v hv => ?_
+    rw [hv] at h
+    simpa using h
+
+/-- the checker's verdict on a real `sqrt` output (comparison through squares) is the comparison with `√n` -/
+theorem sqrt_checker_sound {n : Int} (hn : 0 ≤ n) (s : Int) :
+    (Exact.sqrt n 1).cmpInt s = some (compare (Real.sqrt n) (s : ℝ)) := cmpInt_sqrt_sound hn s
+
+example : IntOp.run .i8 .checkOverflowOnly .sqrt .up { x := 127 } = (12, V_LT) := by decide
+example : IntOp.run .i8 .checkOverflowOnly .sqrt .down { x := 127 } = (11, V_GT) := by decide
+example : IntOp.run .u8 .checkOverflowOnly .sqrt .ignore { x := 255 } = (15, V_GE) := by decide
+example : IntOp.run .i8 .debugExtended .sqrt .up { x := -4 } = (-127, V_SQRT_NEG) := by decide
+
+/-- **`gcd_assign_r`** (`gcd_exact_no_abs` — Euclid's loop on the signed values — then `abs`; `gcd_ext` for
+special operands): the exact result is the non-negative gcd; it is stored exactly, or an overflow is
+reported when it is not a value of the type (`gcd(min, min)`, `gcd(min, 0)`).  The loop terminates within
+the `2·bits + 2` iterations of the model and no remainder leaves the type. -/
+theorem gcd_spec {t : IntTy} {π : Policy} (c : Cfg t π) (dir : Dir) (a : Operands)
+    (hpre : IntOp.pre t π .gcd a = true) :
+    OKQ t π dir (IntOp.run t π .gcd dir a) (IntOp.exact t π .gcd a).toQ := by
+  simp only [IntOp.pre, Bool.and_eq_true, decide_eq_true_eq] at hpre
+  obtain ⟨⟨⟨x1, x2⟩, y1, y2⟩, z1, z2⟩ := hpre
+  simp only [IntOp.run, IntOp.exact]
+  rw [exactGcd_eq, Exact.toQ_ofExt]
+  exact ok_toQ (gcdExt_ok c.wf c.larger c.checkOverflow dir ⟨z1, z2⟩ ⟨x1, x2⟩ ⟨y1, y2⟩)
+
+/-- in plain terms: for finite operands whose gcd is a value of the type, `to = gcd(x, y) ≥ 0` and `V_EQ` -/
+theorem gcd_value {t : IntTy} {π : Policy} (c : Cfg t π) (dir : Dir) {to0 x y : Int}
+    (hx : t.finite π x) (hy : t.finite π y) (hg : (Int.gcd x y : Int) ≤ t.emax π) :
+    PPLV.Checked.gcd t π to0 x y dir = ((Int.gcd x y : Int), V_EQ) := by
+  have hmin := (IntTy.emin_le_emax c.wf).1
+  rcases gcd_tri c.wf c.larger c.checkOverflow dir (to0 := to0) hx hy with ⟨h, _⟩ | ⟨h, _⟩ | ⟨h, _⟩
+  · exact h
+  · exact absurd h (by omega)
+  · exact absurd h (by omega)
+
+example : IntOp.run .i8 .checkOverflowOnly .gcd .up { x := -128, y := 96 } = (32, V_EQ) := by decide
+example : IntOp.run .i8 .checkOverflowOnly .gcd .down { x := -128, y := 0 } = (127, V_GT_SUP) := by decide
+example : IntOp.run .i8 .extended .gcd .up { x := 127, y := -12 } = (12, V_EQ) := by decide
+
+/-- **`lcm_assign_r`, partial**: whenever `|x|` and `|y|` are values of the type (always, except for the
+minimum of an asymmetric finite range) the result is `lcm(x, y)` stored exactly or a true overflow report.
+The excluded calls are KF-C11-5 (`lcm_spec_fails`). -/
+theorem lcm_spec_partial {t : IntTy} {π : Policy} (c : Cfg t π) (dir : Dir) (a : Operands)
+    (hz : t.inRange a.to0) (hx : t.finite π a.x) (hy : t.finite π a.y)
+    (hxr : -a.x ≤ t.emax π) (hyr : -a.y ≤ t.emax π) :
+    OKQ t π dir (IntOp.run t π .lcm dir a) (IntOp.exact t π .lcm a).toQ := by
+  have dx := IntTy.denote_finite c.wf hx
+  have dy := IntTy.denote_finite c.wf hy
+  have nx : t.isNan π a.x = false ∧ t.isMinf π a.x = false ∧ t.isPinf π a.x = false := by
+    rcases IntTy.denote_cases c.wf (IntTy.finite_inRange hx) with ⟨_, d⟩ | ⟨_, _, _, d⟩ | ⟨_, _, _, d⟩ | ⟨a1, b1, c1, _, _⟩
+    · rw [dx] at d; cases d
+    · rw [dx] at d; cases d
+    · rw [dx] at d; cases d
+    · exact ⟨a1, b1, c1⟩
+  have ny : t.isNan π a.y = false ∧ t.isMinf π a.y = false ∧ t.isPinf π a.y = false := by
+    rcases IntTy.denote_cases c.wf (IntTy.finite_inRange hy) with ⟨_, d⟩ | ⟨_, _, _, d⟩ | ⟨_, _, _, d⟩ | ⟨a1, b1, c1, _, _⟩
+    · rw [dy] at d; cases d
+    · rw [dy] at d; cases d
+    · rw [dy] at d; cases d
+    · exact ⟨a1, b1, c1⟩
+  simp only [IntOp.run, IntOp.exact, lcmExt, nx.1, nx.2.1, nx.2.2, ny.1, ny.2.1, ny.2.2, dx, dy, exactLcm,
+    Bool.or_self, Bool.false_eq_true, if_false]
+  obtain ⟨z, hzr, htri⟩ := lcm_tri_partial c.wf c.larger c.checkOverflow dir (to0 := a.to0) hx hy hxr hyr
+  have := ok_toQ (tri_ok c.wf hzr htri)
+  simpa [Exact.ofInt, Exact.toQ, Ext.map] using this
+
+example : IntOp.run .i8 .checkOverflowOnly .lcm .up { x := -12, y := 10 } = (60, V_EQ) := by decide
+example : IntOp.run .i8 .checkOverflowOnly .lcm .down { x := 12, y := 11 } = (127, V_GT_SUP) := by decide
+
+/-! ## conversions into `mpz_class` / `mpq_class` -/
+
+/-- **`assign_r(mpz_class, mpq_class)`**: floor / ceiling / truncation as the direction asks; the relation is
+true and the direction honoured, also with `ROUND_STRICT_RELATION` -/
+theorem assign_mpz_mpq_holds (n : Int) {d : Int} (hd : 0 < d) (dir : Dir) (strict : Bool) :
+    K4.holds (Mp.assignMpzMpq n d dir strict).2 (.fin ((Mp.assignMpzMpq n d dir strict).1 : Rat)) (.fin ((n : Rat) / d)) ∧
+    K4.directed dir (Mp.assignMpzMpq n d dir strict).2 (.fin ((Mp.assignMpzMpq n d dir strict).1 : Rat)) (.fin ((n : Rat) / d)) :=
+  assignMpzMpq_ok n hd dir strict
+
+example : Mp.assignMpzMpq (-7) 2 .down true = (-4, V_GT) := by decide
+example : Mp.assignMpzMpq (-7) 2 .up false = (-3, V_LE) := by decide
+example : Mp.assignMpzMpq (-7) 2 .ignore false = (-3, V_LGE) := by decide
+
+/-- **`assign_r(mpz_class, float | double)`** on a finite operand `n / d`, the FPU rounding upward (the
+library's invariant; the kernel's `round_direct(ROUND_UP)` test is a constant) -/
+theorem assign_mpz_float_holds (π : Policy) (to0 : QV) (n : Int) {d : Int} (hd : 0 < d) (dir : Dir) :
+    K4.holds (Mp.assignMpzFloat π to0 .up (.fin n d) dir).2 (Mp.assignMpzFloat π to0 .up (.fin n d) dir).1.toExtQ (.fin ((n : Rat) / d)) ∧
+    K4.directed dir (Mp.assignMpzFloat π to0 .up (.fin n d) dir).2 (Mp.assignMpzFloat π to0 .up (.fin n d) dir).1.toExtQ (.fin ((n : Rat) / d)) :=
+  assignMpzFloat_ok π to0 n hd dir
+
+example : Mp.assignMpzFloat .extended .nan .up (.fin (-5) 2) .down = (.fin (-3) 1, V_GT) := by decide
+example : Mp.assignMpzFloat .extended .nan .up (.fin (-5) 2) .up = (.fin (-2) 1, V_LT) := by decide
+
+/-- `assign_r(mpz_class | mpq_class, native integer)` is exact, also for the minimum of `long long` -/
+theorem assign_mpz_int_exact (f : IntTy) {v : Int} (h : f.inRange v) : Mp.assignMpzInt f v = (v, V_EQ) :=
+  assignMpzInt_exact f h
+
 /-! ## lcm: the code of an intermediate `abs` is returned, nothing is stored -/
 
 /-- the "infinities only" layout of `Extended_Int` (not a policy the library instantiates) -/
@@ -301,10 +421,15 @@ def infOnly : Policy := { Policy.debugExtended with hasNan := false }
 
 /-- **`lcm(1, -127)` on `int8_t` with infinities only, ROUND_UP: returns `V_LT_PLUS_INFINITY`**
 (class `+∞`, representable) while `to` still holds its old value 85. -/
-theorem lcm_model_fails :
+theorem lcm_spec_fails :
     IntOp.run .i8 infOnly .lcm .up { to0 := 85, x := 1, y := -127 } = (85, V_LT_PLUS_INFINITY) ∧
     K4.holdsB V_LT_PLUS_INFINITY (IntTy.i8.denote infOnly 85) (IntOp.exact .i8 infOnly .lcm { to0 := 85, x := 1, y := -127 })
       = false := by decide
+
+theorem lcm_model_fails :
+    IntOp.run .i8 infOnly .lcm .up { to0 := 85, x := 1, y := -127 } = (85, V_LT_PLUS_INFINITY) ∧
+    K4.holdsB V_LT_PLUS_INFINITY (IntTy.i8.denote infOnly 85) (IntOp.exact .i8 infOnly .lcm { to0 := 85, x := 1, y := -127 })
+      = false := lcm_spec_fails
 
 /-! ## all proved operations at once -/
 
@@ -315,7 +440,8 @@ def proved : IntOp → Bool
 
 /-- **C11.op_holds**, partial: for every width, signedness, policy, direction and operand bit
 patterns within the contract — relation, direction, overflow claim, no wrap, NaN stored.
-Missing: `sqrt`, `gcd`, `lcm` only (no theorem; `lcm` has the open finding KF-C11-5). -/
+Not in this aggregate: `sqrt` (`sqrt_holds`, stated over `ℝ`), `gcd` (`gcd_spec`), `lcm`
+(`lcm_spec_partial` / `lcm_spec_fails`, the open finding KF-C11-5). -/
 theorem op_holds_partial {t : IntTy} {π : Policy} (c : Cfg t π) (op : IntOp) (hop : proved op = true)
     (hasg : ∀ f πf, op = .assign f πf → f.WF πf ∧ t.GapOK f)
     (dir : Dir) (a : Operands) (hpre : IntOp.pre t π op a = true) :
